@@ -57,6 +57,48 @@ class SymStream:
             self.short_reads.append((n, take))
         return out
 
+    def readline(self, size=-1):
+        """up to and including the next LF (solver-decided position), like io.BytesIO.readline"""
+        self._chk()
+        self.nreads += 1
+        if self.max_reads is not None and self.nreads > self.max_reads:
+            raise OutOfBound('more than %d reads' % self.max_reads)
+        rest = lift(mk_seq(self.el[self.pos:], bytes)) if self.pos < len(self.el) else None
+        if rest is None:
+            self.log.append(('read', 0))
+            return b''
+        limit = len(rest.el) if size is None or int(size) < 0 else min(int(size), len(rest.el))
+        i = rest.find(b'\n', 0, limit)
+        take = limit if i < 0 else i + 1
+        out = mk_seq(rest.el[:take], bytes)
+        self.pos += take
+        self.log.append(('read', take))
+        return out
+
+    def readlines(self, hint=-1):
+        out = []
+        while True:
+            ln = self.readline()
+            if not len(ln):
+                return out
+            out.append(ln)
+
+    def __iter__(self):
+        return self
+
+    def __next__(self):
+        ln = self.readline()
+        if not len(ln):
+            raise StopIteration
+        return ln
+
+    def read1(self, n=-1):
+        return self.read(n)
+
+    def writelines(self, lines):
+        for ln in lines:
+            self.write(ln)
+
     def seek(self, off, whence=0):
         self._chk()
         off = int(off)
